@@ -1,20 +1,24 @@
 #!/usr/bin/env python3
 """collect_seeds.py : copy confirmed seeded changes into /verif/seeded/<id>/ with meta.json.
-Inputs: /tmp/mutout (round 1), /tmp/mutout2 (round 2): <prop>/<m>/{patch.diff,demo*.rs,notes.md,confirm.json}
+Inputs: /tmp/mutout (round 1), /tmp/mutout2 (round 2), /tmp/mutout3 (round 3): <prop>/<m>/{patch.diff,demo*.rs,notes.md,confirm.json}
         matrix logs with lines `RESULT patch=<path> check=<ID> rc=<n> violations=<k> first=<msg>`."""
 import glob, json, os, re, shutil, sys
 OUT = "/verif/seeded"
 logs = sys.argv[1:]
 det = {}
+first_seen = {}
 for lg in logs:
     if not os.path.exists(lg):
         continue
     for line in open(lg, errors="replace"):
         m = re.match(r"RESULT patch=(\S+) check=(\S+) rc=(\d+) violations=(\d+) first=(.*)", line)
         if m:
-            det.setdefault(m.group(1), {})[m.group(2)] = dict(rc=int(m.group(3)), violations=int(m.group(4)), first=m.group(5).replace("[vcheck]", "").strip()[:400])
+            rec = dict(rc=int(m.group(3)), violations=int(m.group(4)), first=m.group(5).replace("[vcheck]", "").strip()[:400])
+            det.setdefault(m.group(1), {})[m.group(2)] = rec
+            first_seen.setdefault(m.group(1), {}).setdefault(m.group(2), rec)
 rows = []
-for rnd, base in (("r1", "/tmp/mutout"), ("r2", "/tmp/mutout2")):
+SUMM = json.load(open("/verif/tools/seed_summaries.json")) if os.path.exists("/verif/tools/seed_summaries.json") else {}
+for rnd, base in (("r1", "/tmp/mutout"), ("r2", "/tmp/mutout2"), ("r3", "/tmp/mutout3")):
     for d in sorted(glob.glob(base + "/C*/m[12]")):
         prop, m = d.split("/")[-2:]
         cj = os.path.join(d, "confirm.json")
@@ -38,8 +42,9 @@ for rnd, base in (("r1", "/tmp/mutout"), ("r2", "/tmp/mutout2")):
         patch = os.path.join(d, "patch.diff")
         d_ = det.get(patch, {})
         detected = {k: v for k, v in d_.items() if v["rc"] == 1}
+        old = json.load(open(os.path.join(dst, "meta.json"))) if os.path.exists(os.path.join(dst, "meta.json")) else {}
         meta = dict(
-            id=name, breaks_property=prop, origin="independent sub-agent, given only the property text and a scratch worktree (round %s)" % rnd[1],
+            id=name, summary=SUMM.get(name, ""), breaks_property=prop, origin="independent sub-agent, given only the property text and a scratch worktree (round %s)" % rnd[1],
             files_changed=sorted(set(re.findall(r"^\+\+\+ b/(\S+)", open(patch).read(), re.M))),
             needs_to_manifest=needs or "see notes.md",
             confirmed=dict(by="tools/confirm_seed.sh in a scratch worktree of /repo HEAD", patch_applies=c["applies"], builds_default_and_no_default_features=c["builds"],
@@ -47,6 +52,12 @@ for rnd, base in (("r1", "/tmp/mutout"), ("r2", "/tmp/mutout2")):
             checks_run={k: ("VIOLATION (exit 1): " + v["first"]) if v["rc"] == 1 else ("not detected (exit %d)" % v["rc"]) for k, v in d_.items()},
             detected_by=sorted(detected.keys()),
         )
+        fs = first_seen.get(patch, {}).get(prop)
+        if old.get("history"):
+            meta["history"] = old["history"]
+        elif fs and fs["rc"] != 1 and prop in detected:
+            meta["history"] = "First run of the property's own quick check: not reported (exit %d). The check was then strengthened (DESIGN.md 8.5 / 9); reported since." % fs["rc"]
+        meta["first_run_of_own_check"] = ("reported" if fs and fs["rc"] == 1 else "NOT reported (exit %s)" % (fs["rc"] if fs else "?"))
         json.dump(meta, open(os.path.join(dst, "meta.json"), "w"), indent=1)
         rows.append((name, prop, sorted(detected.keys()), sorted(k for k, v in d_.items() if v["rc"] != 1)))
 for r in rows:
